@@ -364,10 +364,11 @@ class PD(Operator):
     def shape(self):
         return getattr(self.pd, "shape", (1,))
 
-    def _apply(self, sm):
+    def _apply(self, sm, pd=None):
         xp = common.get_array_module()
+        pd = self.pd if pd is None else pd
         eq = xp.array([0, 0, 1], dtype=complex)
-        eq = eq * xp.atleast_1d(self.pd)[..., np.newaxis, np.newaxis]
+        eq = eq * xp.atleast_1d(pd)[..., np.newaxis, np.newaxis]
         sm.arrays.set("equilibrium", eq, resize=True)
         if self.reset:
             sm.arrays.update("states", sm.equilibrium)
@@ -379,9 +380,7 @@ class PD(Operator):
 
     def _apply_partial(self, sm):
         # the proton density does not depend on any variable
-        if self.reset:
-            sm.states = 0 * sm.states
-        return sm
+        return self._apply(sm, pd=0 * self.pd)
 
 
 #
